@@ -895,6 +895,17 @@ impl BTree {
     }
 }
 
+#[cfg(nervusdb_verif)]
+impl BTree {
+    /// verif hook: the pages `mark_reachable_pages` visits from this root (sorted) and the leaf payloads.
+    pub fn verif_pages(&self, pager: &Pager) -> Result<(Vec<u64>, Vec<u64>)> {
+        let mut out = BTreeSet::new();
+        let mut payloads = Vec::new();
+        self.mark_reachable_pages(pager, &mut out, Some(&mut payloads))?;
+        Ok((out.into_iter().map(|p| p.as_u64()).collect(), payloads))
+    }
+}
+
 pub struct BTreeCursor<'a> {
     pager: &'a Pager,
     leaf: PageId,
